@@ -612,3 +612,108 @@ Proof.
   inversion HR; inversion HS; subst. cbn [flat_map].
   rewrite escape_rune_unit by assumption. f_equal. apply IH; assumption.
 Qed.
+
+(* ---------- otto's unescape (commit 6dc8dfa) ---------- *)
+Lemma unescape_at_tail : forall r v r', unescape_at r = Some (v, r') ->
+  (exists u a b c d, r = u :: a :: b :: c :: d :: r') \/ (exists a b, r = a :: b :: r').
+Proof.
+  intros r v r' H. unfold unescape_at in H.
+  destruct r as [| u [| a [| b [| c [| d r5]]]]]; try discriminate H.
+  - destruct (hexbyte u a); inversion H; subst; right; eauto.
+  - destruct (hexbyte u a); inversion H; subst; right; eauto.
+  - destruct (hexbyte u a); inversion H; subst; right; eauto.
+  - destruct (u =? 117); [destruct (hex4 a b c d) |].
+    + inversion H; subst; left; eauto 10.
+    + destruct (hexbyte u a); inversion H; subst; right; eauto.
+    + destruct (hexbyte u a); inversion H; subst; right; eauto.
+Qed.
+
+Lemma unescape_at_small : forall r v r', Forall (fun c => c < 0x10000) r ->
+  unescape_at r = Some (v, r') -> Forall (fun c => c < 0x10000) r'.
+Proof.
+  intros r v r' HF H.
+  destruct (unescape_at_tail r v r' H) as [(u & a & b & c & d & E) | (a & b & E)]; subst;
+    repeat (match goal with HF : Forall _ (_ :: _) |- _ => inversion HF; clear HF; subst end); assumption.
+Qed.
+
+Lemma units_small : forall c, c < 0x10000 -> units c = [c].
+Proof. intros c H. unfold units. destruct (Z.ltb_spec c 0x10000); [reflexivity | lia]. Qed.
+
+Lemma flat_map_units_small : forall l, Forall (fun c => c < 0x10000) l -> flat_map units l = l.
+Proof.
+  induction l as [| c r IH]; intro H; [reflexivity |]. inversion H; subst.
+  cbn [flat_map]. rewrite units_small by assumption. rewrite IH by assumption. reflexivity.
+Qed.
+
+Lemma unescape_units_small : forall f l, Forall (fun c => c < 0x10000) l ->
+  unescape_units f l = unescape_fuel f l.
+Proof.
+  induction f as [| f IH]; intros l HF.
+  { destruct l as [| c r]; [reflexivity |]. cbn [unescape_units unescape_fuel]. apply flat_map_units_small; assumption. }
+  destruct l as [| c r]; [reflexivity |]. inversion HF as [| ? ? Hc Hr]; subst.
+  cbn [unescape_units unescape_fuel].
+  destruct (c =? 37).
+  - destruct (unescape_at r) as [[v r'] |] eqn:E.
+    + rewrite IH by (eapply unescape_at_small; eassumption). reflexivity.
+    + rewrite IH by assumption. reflexivity.
+  - rewrite units_small by assumption. rewrite IH by assumption. reflexivity.
+Qed.
+
+Lemma utf16_roundtrip_len : forall n s, (length s <= n)%nat -> Forall unit_range s -> well_formed s = true ->
+  utf16_encode (utf16_decode s) = s.
+Proof.
+  unfold utf16_encode.
+  induction n as [| n IH]; intros s HL HR HW.
+  { destruct s; [reflexivity | cbn in HL; lia]. }
+  destruct s as [| c r]; [reflexivity |].
+  inversion HR as [| ? ? Hc HR']; subst. cbn [length] in HL.
+  cbn [well_formed] in HW. cbn [utf16_decode].
+  destruct (is_hi c) eqn:Eh.
+  - destruct r as [| c2 r2]; [discriminate |].
+    apply andb_true_iff in HW as [Hl2 HW2]. rewrite Hl2.
+    inversion HR' as [| ? ? Hc2 HR2]; subst. cbn [length] in HL.
+    destruct (pair_scalar c c2 Eh Hl2) as (_ & _ & HU).
+    cbn [flat_map]. rewrite HU. rewrite IH by (lia || assumption). reflexivity.
+  - apply andb_true_iff in HW as [Hl HW2]. apply negb_true_iff in Hl. rewrite Hl.
+    cbn [flat_map]. unfold unit_range in Hc. rewrite units_small by lia.
+    rewrite IH by (lia || assumption). reflexivity.
+Qed.
+
+(* on a text without surrogates otto's unescape is B.2.2 whenever the B.2.2
+   result can live in a Go string (no unpaired surrogate escape) *)
+Lemma unescape_model_is_spec : forall l,
+  Forall (fun c => c < 0x10000) l -> Forall (fun c => is_surr c = false) l ->
+  Forall unit_range (unescape_spec l) -> well_formed (unescape_spec l) = true ->
+  unescape_model l = unescape_spec l.
+Proof.
+  intros l HS HN HR HW. unfold unescape_model. cbv zeta.
+  rewrite (utf16_decode_no_surr l) by assumption.
+  rewrite unescape_units_small by assumption.
+  change (unescape_fuel (length l) l) with (unescape_spec l).
+  apply (utf16_roundtrip_len (length (unescape_spec l))); [apply le_n | assumption | assumption].
+Qed.
+
+Lemma esc_unescaped_ascii : forall c, esc_unescaped c = true -> 0 <= c < 128.
+Proof.
+  intros c H. unfold esc_unescaped, is_alpha, is_dec in H.
+  repeat (apply orb_true_iff in H as [H | H]);
+    try (apply andb_true_iff in H as [H1 H2]; apply Z.leb_le in H1, H2; lia);
+    try (apply Z.eqb_eq in H; lia); try discriminate H.
+Qed.
+
+(* unescape(escape(s)) = s through otto's unescape, for every well-formed string:
+   surrogate pairs are restored (this is what C13_unescape_surrogate_refuted denied) *)
+Lemma unescape_model_escape : forall s, Forall unit_range s -> well_formed s = true ->
+  unescape_model (escape_spec s) = s.
+Proof.
+  intros s HR HW.
+  assert (forall c, In c (escape_spec s) -> 0 <= c < 128) as HA.
+  { intros c Hin. destruct (escape_output_chars s c HR Hin) as [H | [-> | ->]]; [apply esc_unescaped_ascii; assumption | lia | lia]. }
+  rewrite unescape_model_is_spec.
+  - apply escape_roundtrip; assumption.
+  - apply Forall_forall. intros c Hin. specialize (HA c Hin). lia.
+  - apply Forall_forall. intros c Hin. specialize (HA c Hin). unfold is_surr.
+    destruct (Z.leb_spec 0xD800 c); [lia | reflexivity].
+  - rewrite escape_roundtrip by assumption. assumption.
+  - rewrite escape_roundtrip by assumption. assumption.
+Qed.
